@@ -2004,6 +2004,7 @@ func (c *Ctx) ruleSigChan(rule string) {
 		what string
 	}
 	var sites []site
+	var unconditional []ssa.Instruction
 	for _, fn := range c.M.SortedFuncs(c.scopePkg("atp")) {
 		for _, b := range fn.Blocks {
 			for _, in := range b.Instrs {
@@ -2011,6 +2012,28 @@ func (c *Ctx) ruleSigChan(rule string) {
 				case *ssa.Send:
 					if fromTable(x.Chan) {
 						sites = append(sites, site{fn, in, "send"})
+						unconditional = append(unconditional, in)
+					}
+				case *ssa.Select:
+					for _, st := range x.States {
+						if st.Dir == types.SendOnly && fromTable(st.Chan) {
+							sites = append(sites, site{fn, in, "send"})
+							// a way out: a receive from a Done() channel among the other cases
+							out := false
+							for _, o := range x.States {
+								if o.Dir == types.RecvOnly {
+									if call, ok := o.Chan.(*ssa.Call); ok && call.Call.IsInvoke() && call.Call.Method.Name() == "Done" {
+										out = true
+									}
+								}
+							}
+							if !x.Blocking {
+								out = true
+							}
+							if !out {
+								unconditional = append(unconditional, in)
+							}
+						}
 					}
 				case *ssa.Call:
 					if bi, ok := x.Call.Value.(*ssa.Builtin); ok && bi.Name() == "close" && len(x.Call.Args) == 1 && fromTable(x.Call.Args[0]) {
@@ -2054,6 +2077,16 @@ func (c *Ctx) ruleSigChan(rule string) {
 			c.R.Bad(rule, k, c.M.InstrPos(s.in), "a caller's signal channel is used outside the read loop's goroutine without the state mutex",
 				"the read loop sends emitted signals on this channel without holding the mutex, relying on being the only goroutine that closes it; a "+s.what+" from another goroutine can hit a send in flight ('send on closed channel' kills the process) or deliver after the close")
 		}
+	}
+	// a hand-over to the caller must have a way out: the caller may have stopped listening when it calls Close, and
+	// Close waits for the goroutine that is sending
+	for i, in := range unconditional {
+		k := key(rule, c.M.Key(in.Parent()), sprintf("hand-over #%d to the caller's channel can be abandoned on Close", i+1))
+		c.R.Bad(rule, k, c.M.InstrPos(in), "an emitted signal is handed to the caller with an unconditional send",
+			"a caller that has stopped receiving (it is shutting down and calls Close) keeps the read loop in this send for ever; Close cancels the client's context but waits for the read loop, so Close and every pending Execute hang")
+	}
+	if len(unconditional) == 0 && len(sites) > 0 {
+		c.R.Ok(rule, key(rule, "signal hand-over", "every send to a caller's channel has a way out"), "-", "hand-over of emitted signals", "every send on a signal-table channel is a select case next to a receive from a Done() channel (or non-blocking)")
 	}
 	c.R.Floor(rule, 2)
 }
@@ -2099,6 +2132,12 @@ func (c *Ctx) sigSitesConfined() bool {
 				switch x := in.(type) {
 				case *ssa.Send:
 					site = fromTable(x.Chan)
+				case *ssa.Select:
+					for _, st := range x.States {
+						if st.Dir == types.SendOnly && fromTable(st.Chan) {
+							site = true
+						}
+					}
 				case *ssa.Call:
 					if bi, ok := x.Call.Value.(*ssa.Builtin); ok && bi.Name() == "close" && len(x.Call.Args) == 1 {
 						site = fromTable(x.Call.Args[0])
